@@ -1117,7 +1117,15 @@ def loop_shapes() -> dict[str, Any]:
         # r -> t -> x(jump t) ; r -> s (side branch, independent of t) ; z joins x and s.
         return workflow([stage("r"), stage("t", ["r"]), stage("x", ["t"], tasks=J("t", times)), stage("s", ["r"]), stage("z", ["x", "s"])], context=ctx), {"r": "once", "t": "loop", "x": "loop", "s": "once", "z": "after"}, "x"
 
-    return {"selfloop": selfloop, "cycle2": cycle2, "cycle3": cycle3, "cycle4": cycle4, "side_fanin": side_fanin}
+    def selfloop_policy(policy: dict[str, Any]) -> Any:
+        # the looping stage carries a failure policy: spending the jump budget is still a terminal failure of the stage and the workflow
+        def build(times: int, ctx: Any) -> Any:
+            return workflow([stage("a", tasks=J("a", times), ctx=dict(policy)), stage("b", ["a"])], context=ctx), {"a": "loop", "b": "after"}, "a"
+
+        return build
+
+    return {"selfloop": selfloop, "cycle2": cycle2, "cycle3": cycle3, "cycle4": cycle4, "side_fanin": side_fanin,
+            "selfloop_cont": selfloop_policy({"continuePipelineOnFailure": True}), "selfloop_stop": selfloop_policy({"failPipeline": False})}
 
 
 DEFAULT_MAX_JUMPS_DOC = 10
